@@ -818,7 +818,7 @@ class Optimizer(Logger, Citable):
 
         count = 0
 
-        derived_param = {p: ([], []) for p in self.derived_names}
+        derived_param = {p: ([], [], []) for p in self.derived_names}
 
         weight_comb = []
 
@@ -842,23 +842,22 @@ class Optimizer(Logger, Citable):
             for p, v in zip(self.derived_names, self.derived_values):
                 derived_param[p][0].append(v)
                 derived_param[p][1].append(weight)
+                derived_param[p][2].append(idx)
 
         result_dict = {}
 
-        sorted_weights = weights.argsort()
+        for param, (trace, w, index) in derived_param.items():
 
-        for param, (trace, w) in derived_param.items():
-
-            # I cant remember why this works
+            # Every process contributes the samples it evaluated
             all_trace = np.array(mpi.allreduce(trace, op='SUM'))
-            # I cant remember why this works
             all_weight = np.array(mpi.allreduce(w, op='SUM'))
+            all_index = np.array(mpi.allreduce(index, op='SUM'), dtype=int)
 
-            all_weight_sort = all_weight.argsort()
-
-            # Sort them into the right order
-            all_weight[sorted_weights] = all_weight[all_weight_sort]
-            all_trace[sorted_weights] = all_trace[all_weight_sort]
+            # Sort them into the order of the samples (weights may tie,
+            # the sample indices do not)
+            sample_order = all_index.argsort()
+            all_weight = all_weight[sample_order]
+            all_trace = all_trace[sample_order]
 
             q_16, q_50, q_84 = \
                 quantile_corner(np.array(all_trace), [0.16, 0.5, 0.84],
